@@ -96,7 +96,8 @@ def dspacing_from_tof(
         elem_unit(tof) / sc.units.angstrom / elem_unit(Ltotal),
         copy=False,
     )
-    return 1 / as_float_type(c * Ltotal * sc.sin(two_theta / 2), tof) * tof
+    sin_theta = sc.sin(as_float_type(two_theta, tof) / 2)
+    return 1 / as_float_type(c * Ltotal * sin_theta, tof) * tof
 
 
 def _energy_constant(energy_unit: sc.Unit, tof: Variable, length: Variable):
@@ -131,15 +132,17 @@ def energy_from_tof(*, tof: Variable, Ltotal: Variable) -> Variable:
         Has unit meV.
     """
     c = _energy_constant(sc.units.meV, tof, Ltotal)
-    return as_float_type(c * Ltotal**2, tof) / tof ** sc.scalar(
+    return as_float_type(c * as_float_type(Ltotal, tof) ** 2, tof) / tof ** sc.scalar(
         2, dtype=elem_dtype(tof)
     )
 
 
 def _energy_transfer_t0(energy, tof, length):
     dtype = _common_dtype(energy, tof)
-    c = as_float_type(_energy_constant(elem_unit(energy), tof, length), energy)
-    return length.astype(dtype, copy=False) * sc.sqrt(c / energy)
+    c = _energy_constant(elem_unit(energy), tof, length).astype(dtype, copy=False)
+    return length.astype(dtype, copy=False) * sc.sqrt(
+        c / energy.astype(dtype, copy=False)
+    )
 
 
 def energy_transfer_direct_from_tof(
@@ -187,7 +190,7 @@ def energy_transfer_direct_from_tof(
     t0 = _energy_transfer_t0(incident_energy, tof, L1)
     c = _energy_constant(elem_unit(incident_energy), tof, L2)
     dtype = _common_dtype(incident_energy, tof)
-    scale = (c * L2**2).astype(dtype, copy=False)
+    scale = (c * L2.astype(dtype, copy=False) ** 2).astype(dtype, copy=False)
     delta_tof = tof - t0
     return sc.where(
         delta_tof <= sc.scalar(0, unit=elem_unit(delta_tof)),
@@ -241,7 +244,7 @@ def energy_transfer_indirect_from_tof(
     t0 = _energy_transfer_t0(final_energy, tof, L2)
     c = _energy_constant(elem_unit(final_energy), tof, L1)
     dtype = _common_dtype(final_energy, tof)
-    scale = (c * L1**2).astype(dtype, copy=False)
+    scale = (c * L1.astype(dtype, copy=False) ** 2).astype(dtype, copy=False)
     delta_tof = -t0 + tof  # Order chosen such that output.dims = ['spectrum', 'tof']
     return sc.where(
         delta_tof <= sc.scalar(0, unit=elem_unit(delta_tof)),
